@@ -460,6 +460,28 @@ def run_stream(fe, tbq, lines, indexed=True):
         if alt != [t for _, k, t in events if k == 'D']:
             return 'READERS-DIFFER get_or_none=%d deliveries get()=%s' % (
                 len([1 for _, k, _ in events if k == 'D']), alt if isinstance(alt, str) else '%d deliveries' % len(alt))
+    if fe == 'queue' and not tbq and crash is None:
+        diff = _bounded_queue(lines, events)
+        if diff:
+            return diff
+    if fe in ('iter', 'bytestream') and not tbq and crash is None:
+        diff = _two_passes(fe, lines, [t for _, k, t in events if k == 'D'])
+        if diff:
+            return diff
+    if fe == 'bytestream' and not tbq and crash is None:
+        # log formats: every line carries a prefix / a suffix that a preprocessor removes again
+        ref_d = [t for _, k, t in events if k == 'D']
+        for name, deco, pre in (('prefix', lambda l: b'[1700000000] ' + l, _StripPrefix()),
+                                ('suffix', lambda l: l + b';1700000000', _StripSuffix())):
+            try:
+                alt = [show_sentence(m) for m in ST.ByteStream([deco(l) for l in lines], preprocessor=pre)]
+            except Exception as e:  # noqa
+                alt = err(e)
+            # (a bare line of ten bytes or less is dropped before the preprocessor would see it; decorated it is
+            # longer - but nothing that short is a sentence)
+            if alt != ref_d:
+                return 'READERS-DIFFER ByteStream=%d deliveries with-%s-stripping-preprocessor=%s' % (
+                    len(ref_d), name, alt if isinstance(alt, str) else '%d deliveries' % len(alt))
     if fe in ('iter', 'bytestream') and not tbq and crash is None:
         # the same reader consumed with next() instead of a for loop ("Returns the next decoded NMEA message")
         alt = _by_next((ST.IterMessages if fe == 'iter' else ST.ByteStream)(list(lines)), len(lines))
@@ -504,6 +526,135 @@ def run_stream(fe, tbq, lines, indexed=True):
 class _Identity:
     def process(self, line):
         return line
+
+
+class _StripPrefix:
+    def process(self, line):
+        return line.partition(b'] ')[2]
+
+
+class _StripSuffix:
+    def process(self, line):
+        return line.rpartition(b';')[0]
+
+
+def _bounded_queue(lines, events):
+    """A bounded NMEAQueue fed without blocking loses the messages it has no room for (queue.Full), but what it
+    does deliver is what the unbounded queue delivers for the same line - never anything else."""
+    import queue as _q
+    ref = {}
+    for i, k, t in events:
+        if k == 'D':
+            ref.setdefault(i, []).append(t)
+    for drain_every in (3, 1000):
+        nq = Q.NMEAQueue(maxsize=1)
+        got = []
+        try:
+            for i, l in enumerate(lines):
+                try:
+                    nq.put_line(l, block=False)
+                except _q.Full:
+                    pass
+                if i % drain_every == drain_every - 1 or i == len(lines) - 1:
+                    while True:
+                        m = nq.get_or_none()
+                        if m is None:
+                            break
+                        got.append((i, show_sentence(m)))
+        except Exception as e:  # noqa
+            return 'READERS-DIFFER bounded NMEAQueue raised ' + err(e)
+        allowed = [t for i in sorted(ref) for t in ref[i]]
+        pos = 0
+        for i, t in got:
+            try:
+                pos = allowed.index(t, pos) + 1
+            except ValueError:
+                return ('READERS-DIFFER a bounded NMEAQueue (maxsize=1, drained every %d lines) delivered a sentence the '
+                        'unbounded queue does not deliver (or not in this order): %s' % (drain_every, t[:200]))
+    return None
+
+
+class _Feed:
+    """a polled source: iteration stops when the current batch is used up and goes on after more() """
+
+    def __init__(self):
+        self.items = []
+        self.taken = 0
+
+    def more(self, batch):
+        self.items.extend(batch)
+
+    def __iter__(self):
+        return self
+
+    def __next__(self):
+        if self.taken >= len(self.items):
+            raise StopIteration
+        self.taken += 1
+        return self.items[self.taken - 1]
+
+
+def _is_multi_fragment(line):
+    body = line[line.rfind(b'\\') + 1:] if line.startswith(b'\\') else line
+    f = body.split(b',')
+    return len(f) > 2 and f[0][3:6] in (b'VDM', b'VDO') and f[1].strip() not in (b'1', b'')
+
+
+def _two_passes(fe, lines, ref_d):
+    """One reader consumed in two steps.  (1) Left after its k-th delivery (next() calls, or a for loop with
+    break) and resumed with a for loop: the rest is what a fresh reader delivers for the remaining lines - what
+    the first pass had buffered is gone, nothing else is carried over.  (2) A polled source that runs dry right
+    after a wrapper line, before any multi-fragment message was seen, and continues later: the same
+    deliveries as in one pass (the pending wrapper lives in the reader)."""
+    cls = ST.IterMessages if fe == 'iter' else ST.ByteStream
+    ks = sorted({1, len(ref_d) // 2 + 1, len(ref_d)} & set(range(1, len(ref_d) + 1)))
+    for k in ks:
+        for how in ('next', 'break'):
+            feed = _Feed()
+            feed.more(lines)
+            try:
+                rd = cls(feed)
+                first = []
+                if how == 'next':
+                    for _ in range(k):
+                        first.append(show_sentence(next(rd)))
+                else:
+                    for m in rd:
+                        first.append(show_sentence(m))
+                        if len(first) == k:
+                            break
+                consumed = feed.taken
+                second = [show_sentence(m) for m in rd]
+                fresh = [show_sentence(m) for m in cls(list(lines[consumed:]))]
+            except Exception as e:  # noqa
+                return 'READERS-DIFFER reader consumed in two steps raised ' + err(e)
+            if first != ref_d[:k]:
+                return 'READERS-DIFFER the first %d deliveries by %s differ from a plain for loop' % (k, how)
+            if how == 'break' and second != fresh:
+                return ('READERS-DIFFER reader left after delivery %d (for/break) and resumed: %d deliveries, a fresh '
+                        'reader over the remaining lines: %d (first difference: %s)' % (
+                            k, len(second), len(fresh), next((a[:160] for a, b in zip(second + [''], fresh + ['']) if a != b), '')))
+            if how == 'next' and first + second != ref_d and second != fresh:
+                return ('READERS-DIFFER reader advanced by %d next() calls and then iterated: neither the deliveries of '
+                        'one pass nor those of a fresh reader over the remaining lines' % k)
+    for p in range(1, len(lines)):
+        if lines[p - 1].lstrip().startswith(b'$PGHP') or lines[p - 1].startswith(b'\\') and b'$PGHP' in lines[p - 1]:
+            if any(_is_multi_fragment(l) for l in lines[:p]):
+                break
+            feed = _Feed()
+            feed.more(lines[:p])
+            try:
+                rd = cls(feed)
+                got = [show_sentence(m) for m in rd]
+                feed.more(lines[p:])
+                got += [show_sentence(m) for m in rd]
+            except Exception as e:  # noqa
+                return 'READERS-DIFFER reader over a polled source raised ' + err(e)
+            if got != ref_d:
+                return ('READERS-DIFFER source ran dry after line %d (a wrapper) and continued: %d deliveries, in one '
+                        'pass %d (or other wrappers)' % (p, len(got), len(ref_d)))
+            break
+    return None
 
 
 def _by_next(reader, bound):
